@@ -10,13 +10,13 @@ package main
 //   DIR/stats.json        measured input distribution
 
 import (
-	"runtime"
-	"runtime/debug"
 	"encoding/json"
 	"flag"
 	"fmt"
 	"os"
 	"path/filepath"
+	"runtime"
+	"runtime/debug"
 	"sort"
 	"strings"
 )
